@@ -11,6 +11,23 @@ def corpus(rng, tier, shared):
     for i in range(n):
         cid, lines, ks = c01.build_case(rng, i)
         cases.append(('h%d' % i, lines)); kinds['api-history+save+load'] = kinds.get('api-history+save+load', 0) + 1
+    # names whose last character is a control white-space (tab, CR, LF, VT, FF): what is trimmed must not depend on the build
+    from checks import apihist
+    from lib.harness import hx
+    for i in range(max(6, n // 10)):
+        tails = [b'\t', b'\r', b'\n', b'\x0b', b'\x0c', b'\t ', b' \t', b'']
+        pts = [b'P%d' % k + rng.choice(tails) for k in range(rng.choice([1, 2, 3]))]
+        chs = [b'C%d' % k + rng.choice(tails) for k in range(rng.choice([0, 1, 2]))]
+        lines = ['new 0'] + ['point 0 ' + hx(x) for x in pts] + ['analog 0 ' + hx(x) for x in chs]
+        lines += ['P.new x52415445 x', 'P.set F 0 1 42c80000', 'param 0 x504f494e54']
+        if chs: lines += ['P.new x52415445 x', 'P.set F 0 1 43480000', 'param 0 x414e414c4f47']
+        lines += ['snap 0']
+        for _ in range(2): lines += ['frame 0 - ' + apihist.rand_lit(rng, pts, chs, 2 if chs else 0).text(), 'snap 0']
+        for x in pts + chs:
+            lines += ['mk.point ctor %s %s' % (hx(x), hx(x.rstrip(b' '))), 'mk.point setter %s %s' % (hx(x), hx(x.rstrip())),
+                      'mk.chan ctor %s %s' % (hx(x), hx(x.rstrip(b' '))), 'mk.chan setter %s %s' % (hx(x), hx(x.rstrip()))]
+        lines += ['save 0 nt%d.c3d' % i, 'load 1 nt%d.c3d' % i, 'snap 1', 'frame 1 - ' + apihist.rand_lit(rng, pts, chs, 2 if chs else 0).text(), 'snap 1']
+        cases.append(('nt%d' % i, lines)); kinds['names-with-control-whitespace-tails'] = kinds.get('names-with-control-whitespace-tails', 0) + 1
     for i in range(n):
         L = filegen.make_layout(rng); c = filegen.make_content(rng)
         # integer-format files (header scale factor >= 0): a documented refusal as soon as there is a frame; every build must refuse alike
